@@ -92,8 +92,7 @@ theorem exprIsNumber_congr (h : e1.Equiv e2) (vars : List (String × Ty)) (e : E
 
 theorem exprIsString_congr (h : e1.Equiv e2) (vars : List (String × Ty)) (e : Expr) :
     exprIsString e1 vars e = exprIsString e2 vars e := by
-  unfold exprIsString
-  simp only [typeOfPath_congr h]
+  fun_induction exprIsString e1 vars e <;> simp_all [exprIsString, typeOfPath_congr h]
 
 theorem exprIsBoolean_congr (h : e1.Equiv e2) (vars : List (String × Ty)) (e : Expr) :
     exprIsBoolean e1 vars e = exprIsBoolean e2 vars e := by
